@@ -250,6 +250,9 @@ def run(ctx):
         r = rng.random()
         if r < 0.08:
             return 'default'
+        if r < 0.20:    # names around the reserved word: only the exact name `default` is the default entrypoint
+            return rng.choice(['default_admin', 'defaultOwner', 'default0', 'default_', 'set_default', 'xdefault', 'defaul', 'Default', 'default.default',
+                               'defaultdefault', 'root', 'do', 'remove_delegate', 'set_delegate'])
         n = rng.randrange(0, 32)
         if n == 0:
             return ''
